@@ -11,6 +11,7 @@ An edge `p → x` of the graph is `p ∈ P x` (`P` = the predecessor function).
 import HvGraphAlg.Proofs.Topo
 import HvGraphAlg.Proofs.UFHistory
 import HvGraphAlg.Proofs.SMSubgraphs
+import HvGraphAlg.Proofs.SMQuotient
 import HvGraphAlg.Proofs.Validate
 namespace HvGraphAlg
 
@@ -239,6 +240,31 @@ theorem tryMerge_refuses_iff {G : Nat → List Nat} {E : List (Nat × Nat)} {sm 
           MergeCycle G sm (rootFn sm.uf v0) (rootFn sm.uf u0)) :=
   tryMerge_refused_iff h hu0 hv0
 
+/-- "Refuses a merge only when it would create a cycle or conflict", with the cycle stated
+independently of how `try_merge` searches for it: `MergeWouldCycle G sm a b` says that the quotient
+graph of the partition in which the groups of `a` and `b` are one group (`MergedSame`) has a
+cycle (`MPlus … x x`: one or more group-to-group edges from a node's group back to itself).
+`try_merge` answers `false` exactly when the nodes are in different groups and an enemy pair joins
+the two groups or merging them would make the quotient graph cyclic. -/
+theorem tryMerge_refuses_iff_cycle_or_conflict {G : Nat → List Nat} {E : List (Nat × Nat)} {sm : SM}
+    {gs : List (List Nat)} (h : Inv G E sm gs) {u0 v0 : Nat} (hu0 : u0 < sm.n) (hv0 : v0 < sm.n) :
+    (sm.tryMerge u0 v0).2 = .refused ↔
+      rootFn sm.uf u0 ≠ rootFn sm.uf v0 ∧
+        (EnemyConflict E sm (rootFn sm.uf u0) (rootFn sm.uf v0) ∨
+          MergeWouldCycle G sm (rootFn sm.uf u0) (rootFn sm.uf v0)) := by
+  rw [tryMerge_refused_iff h hu0 hv0]
+  constructor
+  · rintro ⟨hne, hc⟩
+    refine ⟨hne, ?_⟩
+    rw [mergeWouldCycle_iff h (rootFn_lt h.ufok hu0) (rootFn_lt h.ufok hv0)
+      (rootFn_idem h.ufok u0) (rootFn_idem h.ufok v0) hne]
+    exact hc
+  · rintro ⟨hne, hc⟩
+    refine ⟨hne, ?_⟩
+    rw [mergeWouldCycle_iff h (rootFn_lt h.ufok hu0) (rootFn_lt h.ufok hv0)
+      (rootFn_idem h.ufok u0) (rootFn_idem h.ufok v0) hne] at hc
+    exact hc
+
 /-- A refused merge, and a merge of two nodes already in one group, keep the order, the groups
 and the invariant (only path compression happens). -/
 theorem tryMerge_refused_preserves_Inv {G : Nat → List Nat} {E : List (Nat × Nat)} {sm : SM}
@@ -282,6 +308,111 @@ theorem new_then_merges_Inv {n : Nat} {G : Nat → List Nat} {E : List (Nat × N
   obtain ⟨gs', h', _⟩ := runMerges_inv ops sm _ hinv (by rw [hn]; exact hb)
   exact ⟨gs', h'⟩
 
+/-- The union-find inside `SubgraphMerge` answers group membership: under the invariant
+`same_set(a, b)` is true exactly when `a` and `b` lie in one group of `subgraphs()`, and `find(a)`
+is the first node of `a`'s group. -/
+theorem sameSet_find_agree_with_groups {G : Nat → List Nat} {E : List (Nat × Nat)} {sm : SM}
+    {gs : List (List Nat)} (h : Inv G E sm gs) {a b : Nat} (ha : a < sm.n) (hb : b < sm.n) :
+    ((sm.sameSet a b).2 = true ↔ ∃ g ∈ gs, a ∈ g ∧ b ∈ g) ∧
+      ∃ rest, ((sm.find a).2 :: rest) ∈ gs ∧ a ∈ (sm.find a).2 :: rest := by
+  have hfa : (sm.find a).2 = rootFn sm.uf a := (findN_rootFn h.ufok ha).2.1
+  obtain ⟨hra, hrra⟩ := h.rep_of_mem ha
+  obtain ⟨A, rest, B, hgs, _, _, _⟩ := h.rep_group hra hrra
+  have hmem : (rootFn sm.uf a :: rest) ∈ gs := by rw [hgs]; simp
+  refine ⟨?_, rest, by rw [hfa]; exact hmem, by rw [hfa]; exact h.mem_group hmem ha rfl⟩
+  have hs : (sm.sameSet a b).2 = true ↔ rootFn sm.uf a = rootFn sm.uf b := by
+    show (ufSame sm.n sm.uf a b).2 = true ↔ _
+    rw [(ufSame_spec h.ufok ha hb).2.2]
+    constructor
+    · rintro ⟨r, h1, h2⟩; rw [rootFn_eq h.ufok h1, rootFn_eq h.ufok h2]
+    · intro e; exact ⟨_, rootFn_spec h.ufok a, e ▸ rootFn_spec h.ufok b⟩
+  rw [hs]
+  constructor
+  · intro e
+    exact ⟨_, hmem, h.mem_group hmem ha rfl, h.mem_group hmem hb e.symm⟩
+  · rintro ⟨g, hg, hag, hbg⟩
+    obtain ⟨r, _, _, hr⟩ := h.layout.group g hg
+    rw [hr a hag, hr b hbg]
+
+/-! ### all histories of the public API (`try_merge`, `find`, `same_set`) -/
+
+/-- one call on a live `SubgraphMerge` -/
+inductive SmOp
+  | merge (a b : Nat)
+  | find (a : Nat)
+  | same (a b : Nat)
+
+def SmOp.bounded (n : Nat) : SmOp → Prop
+  | .merge a b => a < n ∧ b < n
+  | .find a => a < n
+  | .same a b => a < n ∧ b < n
+
+def smStep (sm : SM) : SmOp → SM
+  | .merge a b => (sm.tryMerge a b).1
+  | .find a => (sm.find a).1
+  | .same a b => (sm.sameSet a b).1
+
+/-- the object after a history of calls (oldest first) -/
+def runOps (sm : SM) (ops : List SmOp) : SM := ops.foldl smStep sm
+
+theorem aux_smStep_inv {G : Nat → List Nat} {E : List (Nat × Nat)} {sm : SM} {gs : List (List Nat)}
+    (h : Inv G E sm gs) (op : SmOp) (hb : op.bounded sm.n) :
+    ∃ gs', Inv G E (smStep sm op) gs' ∧ (smStep sm op).n = sm.n := by
+  cases op with
+  | merge a b =>
+    obtain ⟨gs', h', hn, _⟩ := tryMerge_inv h hb.1 hb.2
+    exact ⟨gs', h', hn⟩
+  | find a =>
+    obtain ⟨hok, _, hrep⟩ := findN_rootFn h.ufok hb
+    exact ⟨gs, h.with_uf hok hrep, rfl⟩
+  | same a b =>
+    obtain ⟨hok, hs, _⟩ := ufSame_spec h.ufok hb.1 hb.2
+    exact ⟨gs, h.with_uf hok (rootFn_congr h.ufok hok hs), rfl⟩
+
+theorem aux_runOps_inv {G : Nat → List Nat} {E : List (Nat × Nat)} :
+    ∀ (ops : List SmOp) (sm : SM) (gs : List (List Nat)), Inv G E sm gs →
+      (∀ op ∈ ops, op.bounded sm.n) → ∃ gs', Inv G E (runOps sm ops) gs' ∧ (runOps sm ops).n = sm.n
+  | [], sm, gs, h, _ => ⟨gs, h, rfl⟩
+  | op :: rest, sm, gs, h, hb => by
+    obtain ⟨gs1, h1, hn1⟩ := aux_smStep_inv h op (hb op (by simp))
+    obtain ⟨gs2, h2, hn2⟩ := aux_runOps_inv rest (smStep sm op) gs1 h1
+      (by rw [hn1]; exact fun o ho => hb o (List.mem_cons_of_mem _ ho))
+    exact ⟨gs2, h2, by rw [show runOps sm (op :: rest) = runOps (smStep sm op) rest from rfl, hn2, hn1]⟩
+
+/-- Every state reachable from `new` by any history of `try_merge` / `find` / `same_set` calls
+satisfies the invariant (so everything `inv_meaning` lists holds of it, and `subgraphs()` yields
+its groups) … -/
+theorem reachable_Inv {n : Nat} {G : Nat → List Nat} {E : List (Nat × Nat)} {sm : SM}
+    (hG : ∀ k, k < n → ∀ p ∈ G k, p < n) (hE : ∀ a b, (a, b) ∈ E → a < n ∧ b < n)
+    (h : SM.new n G E = .ok sm) (ops : List SmOp) (hb : ∀ op ∈ ops, op.bounded n) :
+    ∃ gs', Inv G E (runOps sm ops) gs' ∧ (runOps sm ops).n = n ∧
+      (runOps sm ops).subgraphs = some gs' := by
+  obtain ⟨hinv, hn⟩ := new_inv hG hE h
+  obtain ⟨gs', h', hn'⟩ := aux_runOps_inv ops sm _ hinv (by rw [hn]; exact hb)
+  exact ⟨gs', h', by rw [hn', hn], subgraphs_eq h'⟩
+
+/-- … and in every such state `try_merge(a, b)` never panics, and answers `false` exactly when `a`
+and `b` are in different groups and an enemy pair (of the pairs given to `new`) joins the two
+groups or merging them would make the quotient graph cyclic. -/
+theorem reachable_tryMerge_refuses_iff {n : Nat} {G : Nat → List Nat} {E : List (Nat × Nat)} {sm : SM}
+    (hG : ∀ k, k < n → ∀ p ∈ G k, p < n) (hE : ∀ a b, (a, b) ∈ E → a < n ∧ b < n)
+    (h : SM.new n G E = .ok sm) (ops : List SmOp) (hb : ∀ op ∈ ops, op.bounded n)
+    {a b : Nat} (ha : a < n) (hb' : b < n) :
+    ((runOps sm ops).tryMerge a b).2 ≠ .bug ∧
+    (((runOps sm ops).tryMerge a b).2 = .refused ↔
+      rootFn (runOps sm ops).uf a ≠ rootFn (runOps sm ops).uf b ∧
+        (EnemyConflict E (runOps sm ops) (rootFn (runOps sm ops).uf a) (rootFn (runOps sm ops).uf b) ∨
+          MergeWouldCycle G (runOps sm ops) (rootFn (runOps sm ops).uf a)
+            (rootFn (runOps sm ops).uf b))) := by
+  obtain ⟨gs', h', hn', _⟩ := reachable_Inv hG hE h ops hb
+  have ha' : a < (runOps sm ops).n := by rw [hn']; exact ha
+  have hb'' : b < (runOps sm ops).n := by rw [hn']; exact hb'
+  refine ⟨?_, tryMerge_refuses_iff_cycle_or_conflict h' ha' hb''⟩
+  obtain ⟨_, _, _, hr⟩ := tryMerge_inv h' ha' hb''
+  rcases hr with hr | hr
+  · rw [hr.1]; intro hh; cases hh
+  · rw [hr.1]; intro hh; cases hh
+
 /-- What the invariant says, spelled out in terms of the node graph:
 the order is a permutation of the nodes; every group is a contiguous block of it (`order =
 gs.flatten`), non-empty, and is exactly one union-find class; no node is listed before one of its
@@ -318,5 +449,26 @@ example : (match SM.new 3 (fun k => [[], [0], [0, 1]].getD k []) [] with
 example : (match SM.new 2 (fun _ => []) [(0, 1)] with
     | .ok sm => (sm.tryMerge 0 1).2
     | _ => .bug) = .refused := by decide
+
+-- a history on two unrelated enemies: `same_set`, `find`, then the merge is refused
+example : (match SM.new 2 (fun _ => []) [(0, 1)] with
+    | .ok sm => ((runOps sm [.same 0 1, .find 0]).tryMerge 0 1).2
+    | _ => .bug) = .refused := by decide
+
+-- non-vacuity of `MergeWouldCycle`: on the fresh triangle, merging 0 and 2 would create a cycle
+-- between groups (through the group of 1) — obtained from the refused answer, there being no enemies
+example (sm : SM) (h : SM.new 3 (fun k => [[], [0], [0, 1]].getD k []) [] = .ok sm) :
+    MergeWouldCycle (fun k => [[], [0], [0, 1]].getD k []) sm (rootFn sm.uf 0) (rootFn sm.uf 2) := by
+  obtain ⟨hinv, hn⟩ := new_inv (n := 3) (G := fun k => [[], [0], [0, 1]].getD k []) (E := [])
+    (by decide) (by simp) h
+  have hr : (match SM.new 3 (fun k => [[], [0], [0, 1]].getD k []) [] with
+    | .ok sm => (sm.tryMerge 0 2).2
+    | _ => .bug) = .refused := by decide
+  rw [h] at hr
+  obtain ⟨_, hc | hc⟩ :=
+    (tryMerge_refuses_iff_cycle_or_conflict hinv (by rw [hn]; decide) (by rw [hn]; decide)).1 hr
+  · obtain ⟨x, y, hxy, _⟩ := hc
+    simp at hxy
+  · exact hc
 
 end HvGraphAlg
